@@ -30,7 +30,7 @@ def shards(tier):
 
 
 def required_classes(tier):
-    out = ["constants", "cross-module", "W4:pairs", "W4:triples", "W4:scalars", "W4:GF(p^2)", "non-subgroup", "torsion", "rescaled", "inf-rep", "scalar:640bit", "scalar:r", "twist"]
+    out = ["pairs:hash-colliding-denominators", "pairs:shared-coordinate", "constants", "cross-module", "W4:pairs", "W4:triples", "W4:scalars", "W4:GF(p^2)", "non-subgroup", "torsion", "rescaled", "inf-rep", "scalar:640bit", "scalar:r", "twist"]
     for mk in CG.MODKEYS:
         for g in ("G1", "G2", "G12"):
             out.append("%s:%s" % (mk, g))
@@ -104,6 +104,24 @@ def real_group(rec, modkey, group, quick, parts=("pairs", "scalars", "twist")):
         pairs += [(P, P), (P, E.neg(P)), (P, None), (None, P)]
         for _ in range(2):
             pairs.append((P, rng.choice(pts)[1]))
+    # distinct points that share a coordinate: equal y, x times a cube root of unity (j = 0 curves); equal x is the inverse pair above
+    for lab, P in pts[:3]:
+        if P is not None and group in ("G1", "G2"):
+            pairs.append((P, CG.endo(E.F, P, 1)))
+            pairs.append((CG.endo(E.F, P, 2), P))
+            rec.case("pairs:shared-coordinate", None, nontrivial=False)
+    # two additions whose slope denominators x2 - x1 are distinct residues with equal hash() (they differ by a multiple of 2^61 - 1)
+    if group == "G1" and len(pts) >= 2 and pts[0][1] is not None and pts[1][1] is not None:
+        A_, B_ = pts[0][1], pts[1][1]
+        d = (B_[0][0] - A_[0][0]) % E.F.p
+        C_ = pts[2][1] if len(pts) > 2 and pts[2][1] is not None else A_
+        for k_ in range(1, 40):
+            xs = E.lift_x(((C_[0][0] + d + k_ * CG.M61) % E.F.p,))
+            if xs and d + k_ * CG.M61 < E.F.p:
+                pairs.append((A_, B_))
+                pairs.append((C_, xs[0]))
+                rec.case("pairs:hash-colliding-denominators", None, nontrivial=False)
+                break
     pairs.append((None, None))
     if group == "G12":
         pairs = pairs[:8] if quick else pairs
@@ -149,6 +167,8 @@ def real_group(rec, modkey, group, quick, parts=("pairs", "scalars", "twist")):
         plist = pts[:2]
     else:
         scalars = [0, 1, 2, 3, r - 1, r, r + 1, 2 * p - r, rng.getrandbits(64), rng.getrandbits(255), rng.getrandbits(381), rng.getrandbits(640) | (1 << 639)]
+        n0 = rng.getrandbits(200)
+        scalars += [n0, n0 + CG.M61, n0 + 5 * CG.M61]        # distinct ints with equal hash(): a memo keyed by hash(n) would confuse them
         plist = pts if not quick else [pts[0], pts[5], pts[-1], pts[-2]][: len(pts)]
     if "scalars" not in parts:
         plist = []
